@@ -95,6 +95,8 @@ class State:
         s.memo = dict(self.memo)
         if hasattr(self, "join_terms"):
             s.join_terms = list(self.join_terms)
+        if hasattr(self, "flat_terms"):
+            s.flat_terms = list(self.flat_terms)
         return s
 
 
@@ -373,8 +375,9 @@ class Exec:
                         raise Unsupported("heterogeneous list literal %s vs %s" % (it.t, elem))
         t = TSeq(elem, kind)
         arr = self.fresh_z("lit", z3.ArraySort(z3.IntSort(), elem.sort()))
+        # ground element facts (not Store terms): they also provide the index terms e-matching needs
         for k, it in enumerate(items):
-            arr = z3.Store(arr, k, self.coerce(it, elem).z)
+            self.assume(st, arr[k] == self.coerce(it, elem).z)
         return SV(t, t.mk(arr, z3.IntVal(len(items))))
 
     def seq_concat(self, st, a, b):
@@ -1441,6 +1444,9 @@ class Exec:
         if len(parts) == 2 and parts[0] == "self":
             cls = me.rsplit(".", 1)[0]
             same = [c for c in cands if c.target.rsplit(".", 1)[0] == cls]
+            return same[0] if len(same) == 1 else None
+        if len(parts) == 2 and parts[0][:1].isupper():
+            same = [c for c in cands if c.target.split(".")[-2] == parts[0]]      # Class.static_method
             return same[0] if len(same) == 1 else None
         if len(parts) == 2:
             same = [c for c in cands if _is_module_level(c.target) and c.target.split(".")[-2] == parts[0]]
